@@ -96,12 +96,12 @@ def _case(fams: dict):
     ahab_rsa = st.fixed_dictionaries({
         "kind": st.just("ahab"), "kt": st.just("rsa"), "keys": st.sampled_from([2048, 3072, 4096]).flatmap(
             lambda b: st.lists(st.integers(0, K.RSA_POOL[b] - 1), min_size=4, max_size=4, unique=True).map(lambda ix: [{"t": "rsa", "bits": b, "i": i} for i in ix])),
-        "enc": enc_list(4), "enc2": enc_list(4), "family": st.integers(0, 99), "v2": st.booleans(), "swap": st.tuples(st.integers(0, 3), st.integers(0, 3)),
+        "enc": enc_list(4), "enc2": enc_list(4), "family": st.integers(0, 99), "v2": st.booleans(), "hist": st.booleans(), "swap": st.tuples(st.integers(0, 3), st.integers(0, 3)),
     })
     ahab_ec = st.sampled_from(["secp256r1", "secp384r1", "secp521r1"]).flatmap(lambda cv: st.fixed_dictionaries({
         "kind": st.just("ahab"), "kt": st.just("ec"), "keys": st.lists(K.ec_scalars(cv, 0.3), min_size=4, max_size=4, unique=True).map(
             lambda ds: [{"t": "ec", "curve": cv, "d": d} for d in ds]),
-        "enc": enc_list(4, ("pub_raw",)), "enc2": enc_list(4, ("pub_raw",)), "family": st.integers(0, 99), "v2": st.booleans(),
+        "enc": enc_list(4, ("pub_raw",)), "enc2": enc_list(4, ("pub_raw",)), "family": st.integers(0, 99), "v2": st.booleans(), "hist": st.booleans(),
         "swap": st.tuples(st.integers(0, 3), st.integers(0, 3)),
     }))
     hab = st.integers(1, 4).flatmap(lambda n: st.fixed_dictionaries({
@@ -318,7 +318,14 @@ def _pfr_and_cli(case, o, family, descs, ref, work, rot_type) -> None:
             width = reg.width // 8
             want = ref.ljust(width, b"\0")
             o.eq("reference", "pfr.rotkh", bytes(data[reg.offset : reg.offset + width]), want)
-        o.label("pfr")
+            # the same value handed over ready-made (pfr generate-binary with a binary certificate block) or written in the configuration
+            data2 = CMPA(family=pf).export(rotkh=ref, draw=False)
+            o.eq("reference", "pfr.rotkh_value", bytes(data2[reg.offset : reg.offset + width]), want)
+            cfg = CMPA(family=pf).get_config()
+            cfg["settings"]["ROTKH"] = ref.hex() if case["family"] % 2 else "0x" + ref.hex()
+            data3 = CMPA.load_from_config(cfg).export(draw=False)
+            o.eq("reference", "pfr.rotkh_config", bytes(data3[reg.offset : reg.offset + width]), want)
+        o.label("pfr", "pfr:" + pf)
     if case["cli"] == 0:
         with o.spsdk("cli"):
             from click.testing import CliRunner
@@ -401,23 +408,30 @@ def _run_ahab(case, o, fams, work) -> None:
     raw = [_raw_key(d) for d in descs]
     v2 = case["v2"] and "srk_table_ahab_v2" in fams
     rt = "srk_table_ahab_v2" if v2 else "srk_table_ahab"
-    family = fams[rt][case["family"] % len(fams[rt])]
+    # (family, revision) pairs of the type: the RoT type of a family may differ between chip revisions (mimx9596 a0/a1 vs b0)
+    pairs = _CTX["ahab_pairs"][rt]
+    family, rev = pairs[case["family"] % len(pairs)]
     o.label("family:" + family, "ahab_v2" if v2 else "ahab_v1", "kt:" + str(descs[0].get("bits", descs[0].get("curve"))))
+    others = [r for r, t in _CTX["revs"][family].items() if t != rt]
     h1 = None
     with o.spsdk("rot"):
-        rot = Rot(family, "latest", [_supply(d, e, work, None) for d, e in zip(descs, encs)])
+        if others and case.get("hist", True):
+            # history: the same family was asked about with another revision first
+            o.label("revision_history")
+            Rot(family, others[case["family"] // 7 % len(others)], [_supply(d, "pub_der", work, None) for d in descs]).calculate_hash()
+        rot = Rot(family, rev, [_supply(d, e, work, None) for d, e in zip(descs, encs)])
         h1 = rot.calculate_hash()
         if not v2:
             o.eq("reference", "ahab.srk_hash", h1, R.ahab_srk_hash(raw))
             o.eq("reference", "ahab.srk_table", rot.export(), R.ahab_srk_table(raw))
     with o.spsdk("invariance"):
-        h2 = Rot(family, "latest", [_supply(d, e, work, None) for d, e in zip(descs, case["enc2"])]).calculate_hash()
+        h2 = Rot(family, rev, [_supply(d, e, work, None) for d, e in zip(descs, case["enc2"])]).calculate_hash()
         if h1 is not None:
             o.eq("invariance", "encoding", h2, h1)
     sw, changed = _swap(descs, case["swap"])
     if changed and h1 is not None:
         with o.spsdk("order"):
-            h3 = Rot(family, "latest", [_supply(d, "pub_der", work, None) for d in sw]).calculate_hash()
+            h3 = Rot(family, rev, [_supply(d, "pub_der", work, None) for d in sw]).calculate_hash()
             o.check("order", h3 != h1, "swap_does_not_change_hash", "swapping SRKs %r left the SRK hash unchanged" % (case["swap"],))
 
 
@@ -470,5 +484,21 @@ def parts(ctx):
                 pfr.setdefault(rt[0], []).append(fam)
         except Exception:  # noqa: BLE001
             continue
-    _CTX.update(fams=fams, work=ctx.work, pfr=pfr)
+    # revisions and their RoT types from the check's own reading of the database files
+    from vf.gen import dbenum
+
+    db = dbenum.load()
+    revs: dict = {}
+    ahab_pairs: dict = {"srk_table_ahab": [], "srk_table_ahab_v2": []}
+    for fam in sorted(db.devices):
+        for rev, feats in db.devices[fam].revisions.items():
+            rt = (feats.get("cert_block") or {}).get("rot_type")
+            if rt:
+                revs.setdefault(fam, {})[rev] = rt
+                if rt in ahab_pairs:
+                    ahab_pairs[rt].append((fam, rev))
+    for rt, lst in fams.items():
+        if rt in ahab_pairs:
+            ahab_pairs[rt] += [(f, "latest") for f in lst]
+    _CTX.update(fams=fams, work=ctx.work, pfr=pfr, revs=revs, ahab_pairs=ahab_pairs)
     return [HypPart("rot", _case(fams), run_case, {"quick": 900, "thorough": 40000})]
